@@ -36,18 +36,21 @@ type joinStep struct {
 	t    int // table index
 }
 
-func genTable(r *lib.Rng, idx int, maxRows int) table {
+func genTable(r *lib.Rng, idx int, maxRows int, domain int) table {
 	t := table{cols: []string{fmt.Sprintf("k%da", idx), fmt.Sprintf("k%db", idx), fmt.Sprintf("p%d", idx)}}
 	// the first row has no NULL, so that the JSON source infers number / string for every column
 	// (an empty file has no columns and an all-NULL column has type NULL: schema inference is C24's business)
 	n := 1 + r.Intn(maxRows)
+	if domain == 2 { // three-table queries: at least three rows per table
+		n = 3 + r.Intn(maxRows-2)
+	}
 	for i := 0; i < n; i++ {
 		row := make([]octosql.Value, 3)
 		for j := 0; j < 2; j++ {
-			if i > 0 && r.Chance(1, 5) {
+			if i > 0 && r.Chance(1, 2+2*domain) {
 				row[j] = octosql.NewNull()
 			} else {
-				row[j] = octosql.NewFloat(float64(r.Intn(3)))
+				row[j] = octosql.NewFloat(float64(r.Intn(domain)))
 			}
 		}
 		switch {
@@ -248,7 +251,7 @@ func main() {
 	cf.CaseType = "c02_case"
 	cf.Checks = []lib.Check{{Name: "spec", Kind: "spec", Fn: "c02_spec"}}
 	cf.Side.Rule = "the built CLI on SELECT * FROM t0 x0 <JOIN|LEFT JOIN|RIGHT JOIN|OUTER JOIN|LOOKUP JOIN> t1 x1 ON <1-3 equalities [+ theta conjunct for inner/lookup]> " +
-		"[<join> t2 x2 ON ...] [WHERE conjuncts] over generated JSON tables (0-6 rows, NULL and duplicate keys, duplicate rows), each query with and without --optimize=false; " +
+		"[<join> t2 x2 ON ...] | right-nested x0 <JOIN|LOOKUP JOIN> (x1 <JOIN|LOOKUP JOIN> x2 ON ... incl. references to x0) ON ... [WHERE conjuncts incl. cross-table equalities that the optimizer moves into an already keyed join] over generated JSON tables (0-6 rows, NULL and duplicate keys, duplicate rows), each query with and without --optimize=false; " +
 		"inner/lookup through -o json, queries with an outer join through -o stream_native (retractions visible); oracle = rel_join computed in Coq, rows compared as bags; " +
 		"non-trivial = the expected result has a matched pair and some key is NULL or duplicated"
 	n := f.Cases(100, 1200)
@@ -257,15 +260,16 @@ func main() {
 	for i := 0; i < n; i++ {
 		r := rng.Fork()
 		ntab := 2
-		if r.Chance(1, 4) {
+		if r.Chance(2, 5) {
 			ntab = 3
 		}
 		tabs := make([]table, ntab)
 		for ti := range tabs {
-			tabs[ti] = genTable(r, ti, 6)
+			// three-table queries draw keys from a two-value domain so that conjunctions over three tables keep matches
+			tabs[ti] = genTable(r, ti, 6, 5-ntab)
 		}
 		if i == 0 { // witness
-			tabs = []table{genTable(r, 0, 1), genTable(r, 1, 1)}
+			tabs = []table{genTable(r, 0, 1, 3), genTable(r, 1, 1, 3)}
 			ntab = 2
 			tabs[0].rows = append(tabs[0].rows[:1], []octosql.Value{octosql.NewNull(), octosql.NewFloat(1), octosql.NewString("u")})
 			tabs[1].rows = append(tabs[1].rows[:1], []octosql.Value{octosql.NewNull(), octosql.NewFloat(1), octosql.NewString("v")})
@@ -273,7 +277,42 @@ func main() {
 		var steps []joinStep
 		hasOuter := false
 		width := 3
-		for ti := 1; ti < ntab; ti++ {
+		// right-nested family: x0 K1 (x1 K2 x2 ON inner) ON outer, K1/K2 in {JOIN, LOOKUP JOIN}.  The joined side of a
+		// lookup join sees the source record, so with K1 = LOOKUP JOIN the inner ON may refer to x0 as well.  All joins
+		// being inner, the expected result is the three-way relational join on inner ++ outer.
+		rightNested := ntab == 3 && i != 0 && r.Chance(1, 2)
+		var nestedKinds [2]int
+		var innerOn, outerOn []cond
+		eqBetween := func(ta, tb int) cond {
+			a, b := ta*3+r.Intn(2), tb*3+r.Intn(2)
+			if r.Bool() {
+				a, b = b, a
+			}
+			return cond{kind: "eq", i: a, j: b}
+		}
+		if rightNested {
+			nestedKinds = [][2]int{{4, 4}, {4, 4}, {4, 4}, {4, 0}, {0, 4}, {0, 0}}[r.Intn(6)]
+			innerOn = append(innerOn, eqBetween(1, 2))
+			if nestedKinds[0] == 4 {
+				// the innermost side refers to the outermost table
+				if r.Chance(5, 6) {
+					innerOn = append(innerOn, eqBetween(0, 2))
+				}
+				if r.Chance(1, 6) {
+					innerOn = append(innerOn, eqBetween(0, 1))
+				}
+			}
+			if r.Chance(1, 6) {
+				innerOn = append(innerOn, cond{kind: "lt", i: 3 + r.Intn(2), j: 6 + r.Intn(2)})
+			}
+			outerOn = append(outerOn, eqBetween(0, 1))
+			if r.Chance(1, 6) {
+				outerOn = append(outerOn, eqBetween(0, 2))
+			}
+			steps = []joinStep{{t: 1, kind: 0}, {t: 2, kind: 0, on: append(append([]cond{}, innerOn...), outerOn...)}}
+			width = 9
+		}
+		for ti := 1; ti < ntab && !rightNested; ti++ {
 			st := joinStep{t: ti, kind: []int{0, 0, 1, 2, 3, 4}[r.Intn(6)]}
 			if i == 0 {
 				st.kind = 0
@@ -284,7 +323,7 @@ func main() {
 			if st.kind >= 1 && st.kind <= 3 {
 				hasOuter = true
 			}
-			nk := 1 + r.Intn(3)
+			nk := []int{1, 1, 1, 2, 2, 3}[r.Intn(6)]
 			if i == 0 {
 				nk = 1
 			}
@@ -308,12 +347,26 @@ func main() {
 			width += 3
 		}
 		var where []cond
-		for k := r.Intn(3); k > 0 && i != 0; k-- {
+		crossWhere := false
+		splitOnWhere := !rightNested && len(steps) > 0 && steps[0].kind == 0 // inner stream join: ON gives a key, WHERE adds to it
+		if i != 0 && (r.Chance(1, ntab) || (splitOnWhere && r.Chance(1, 2))) {
+			// an equality (sometimes an inequality) between two different tables in WHERE: the optimizer moves such
+			// equalities into the key of the join they span, in a second rewrite when ON already supplied a key
+			ta := r.Intn(ntab)
+			tb := (ta + 1 + r.Intn(ntab-1)) % ntab
+			c := eqBetween(ta, tb)
+			if r.Chance(1, 5) {
+				c.kind = "lt"
+			}
+			where = append(where, c)
+			crossWhere = c.kind == "eq"
+		}
+		for k := r.Intn(5 - ntab); k > 0 && i != 0; k-- {
 			g := r.Intn(width)
 			if g%3 == 2 || r.Bool() {
 				where = append(where, cond{kind: "notnull", i: g})
 			} else {
-				where = append(where, cond{kind: "gtc", i: g, c: float64(r.Intn(2))})
+				where = append(where, cond{kind: "gtc", i: g, c: float64(r.Intn(4 - ntab))})
 			}
 		}
 		// files + query text
@@ -326,7 +379,20 @@ func main() {
 			names = append(names, t.cols...)
 		}
 		q := "SELECT * FROM t0.json x0"
+		onSQL := func(cs []cond) string {
+			ons := make([]string, len(cs))
+			for k := range cs {
+				ons[k] = condSQL(tabs, cs[k])
+			}
+			return strings.Join(ons, " AND ")
+		}
+		if rightNested {
+			q += fmt.Sprintf(" %s (t1.json x1 %s t2.json x2 ON %s) ON %s", joinSQL[nestedKinds[0]], joinSQL[nestedKinds[1]], onSQL(innerOn), onSQL(outerOn))
+		}
 		for _, st := range steps {
+			if rightNested {
+				break
+			}
 			ons := make([]string, len(st.on))
 			for k := range st.on {
 				ons[k] = condSQL(tabs, st.on[k])
@@ -408,8 +474,21 @@ func main() {
 			js := map[string]interface{}{"query": q, "optimize": opt, "tables": tj, "output_format": format, "observed": lib.EventsJSON(evs)}
 			idx := cf.Add(coq, js, matched && nullOrDup)
 			cf.Count(fmt.Sprintf("tables_%d", ntab))
-			for _, st := range steps {
-				cf.Count("join_" + strings.ReplaceAll(strings.ToLower(joinSQL[st.kind]), " ", "_"))
+			if rightNested {
+				cf.Count(fmt.Sprintf("right_nested_%s_(%s)", strings.ReplaceAll(strings.ToLower(joinSQL[nestedKinds[0]]), " ", "_"), strings.ReplaceAll(strings.ToLower(joinSQL[nestedKinds[1]]), " ", "_")))
+				for _, c := range innerOn {
+					if c.i < 3 || c.j < 3 {
+						cf.Count("right_nested_inner_on_refers_to_outermost_table")
+						break
+					}
+				}
+			} else {
+				for _, st := range steps {
+					cf.Count("join_" + strings.ReplaceAll(strings.ToLower(joinSQL[st.kind]), " ", "_"))
+				}
+			}
+			if crossWhere {
+				cf.Count("where_cross_table_equality")
 			}
 			if opt {
 				cf.Count("optimized")
